@@ -28,3 +28,12 @@ Spec/Tables.vos Spec/Tables.vok Spec/Tables.required_vos: Spec/Tables.v Model/Ba
 Spec/ProcTables.vo Spec/ProcTables.glob Spec/ProcTables.v.beautified Spec/ProcTables.required_vo: Spec/ProcTables.v Model/Base.vo Model/Schema.vo Model/Procs.vo
 Spec/ProcTables.vio: Spec/ProcTables.v Model/Base.vio Model/Schema.vio Model/Procs.vio
 Spec/ProcTables.vos Spec/ProcTables.vok Spec/ProcTables.required_vos: Spec/ProcTables.v Model/Base.vos Model/Schema.vos Model/Procs.vos
+Proofs/Finite.vo Proofs/Finite.glob Proofs/Finite.v.beautified Proofs/Finite.required_vo: Proofs/Finite.v Model/Base.vo Model/Schema.vo Model/Procs.vo
+Proofs/Finite.vio: Proofs/Finite.v Model/Base.vio Model/Schema.vio Model/Procs.vio
+Proofs/Finite.vos Proofs/Finite.vok Proofs/Finite.required_vos: Proofs/Finite.v Model/Base.vos Model/Schema.vos Model/Procs.vos
+Proofs/C11P.vo Proofs/C11P.glob Proofs/C11P.v.beautified Proofs/C11P.required_vo: Proofs/C11P.v Model/Base.vo Model/Schema.vo Model/Procs.vo Model/Inst.vo Spec/ProcTables.vo Proofs/Finite.vo
+Proofs/C11P.vio: Proofs/C11P.v Model/Base.vio Model/Schema.vio Model/Procs.vio Model/Inst.vio Spec/ProcTables.vio Proofs/Finite.vio
+Proofs/C11P.vos Proofs/C11P.vok Proofs/C11P.required_vos: Proofs/C11P.v Model/Base.vos Model/Schema.vos Model/Procs.vos Model/Inst.vos Spec/ProcTables.vos Proofs/Finite.vos
+Properties/C11.vo Properties/C11.glob Properties/C11.v.beautified Properties/C11.required_vo: Properties/C11.v Model/Base.vo Model/Schema.vo Model/Procs.vo Model/Inst.vo Spec/ProcTables.vo Proofs/Finite.vo Proofs/C11P.vo
+Properties/C11.vio: Properties/C11.v Model/Base.vio Model/Schema.vio Model/Procs.vio Model/Inst.vio Spec/ProcTables.vio Proofs/Finite.vio Proofs/C11P.vio
+Properties/C11.vos Properties/C11.vok Properties/C11.required_vos: Properties/C11.v Model/Base.vos Model/Schema.vos Model/Procs.vos Model/Inst.vos Spec/ProcTables.vos Proofs/Finite.vos Proofs/C11P.vos
